@@ -3,7 +3,7 @@ From OtpV Require Import Prelude Sha GoSem Tables Decoder Derive Otp Ocra Errors
 Open Scope N_scope.
 
 Theorem C06src_iff : forall fuel junk jm jm' secret code cfg i, runs fuel junk secret -> small_input i ->
-  (Src.ValidateOCRA fuel jm secret code cfg i = Val (true, None) <-> Src.GenerateOCRA fuel jm' secret cfg i = Val (code, None)).
+  (Src.ValidateOCRA fuel jm secret code (Some cfg) i = Val (true, None) <-> Src.GenerateOCRA fuel jm' secret (Some cfg) i = Val (code, None)).
 Proof.
   intros fuel junk jm jm' secret code cfg i (Hf & Hfs & Hs & Hj) Hi.
   rewrite src_ValidateOCRA_eq, src_GenerateOCRA_eq by (assumption || lia). rewrite lift_v_true, C06_iff.
@@ -12,8 +12,8 @@ Qed.
 Print Assumptions C06src_iff.
 
 Theorem C06src_fail : forall fuel junk jm jm' secret code cfg i e, runs fuel junk secret -> small_input i ->
-  Src.GenerateOCRA fuel jm secret cfg i = Val ([], Some e) ->
-  exists e', Src.ValidateOCRA fuel jm' secret code cfg i = Val (false, Some e').
+  Src.GenerateOCRA fuel jm secret (Some cfg) i = Val ([], Some e) ->
+  exists e', Src.ValidateOCRA fuel jm' secret code (Some cfg) i = Val (false, Some e').
 Proof.
   intros fuel junk jm jm' secret code cfg i e (Hf & Hfs & Hs & Hj) Hi Hg.
   rewrite src_GenerateOCRA_eq in Hg by (assumption || lia). rewrite src_ValidateOCRA_eq by (assumption || lia).
@@ -23,8 +23,8 @@ Qed.
 Print Assumptions C06src_fail.
 
 Theorem C06src_verdict : forall fuel junk jm secret code cfg i, runs fuel junk secret -> small_input i ->
-  Src.ValidateOCRA fuel jm secret code cfg i = Val (true, None)
-  \/ exists e, Src.ValidateOCRA fuel jm secret code cfg i = Val (false, Some e).
+  Src.ValidateOCRA fuel jm secret code (Some cfg) i = Val (true, None)
+  \/ exists e, Src.ValidateOCRA fuel jm secret code (Some cfg) i = Val (false, Some e).
 Proof.
   intros fuel junk jm secret code cfg i (Hf & Hfs & Hs & Hj) Hi.
   rewrite src_ValidateOCRA_eq by (assumption || lia).
